@@ -34,6 +34,7 @@
 From Coq Require Import List Permutation.
 From PV Require Import Lib.Py Model.Graph Model.Persist.
 From PV Require Import Proofs.C01Base Proofs.C01Inv Proofs.C01 Proofs.C03Graph Proofs.C03.
+From PV Require Import Proofs.C01Weak Proofs.C03Weak.
 Import ListNotations.
 
 (* PARTIAL (C03_abs): the loaded model denotes the same workbook with the same
@@ -148,3 +149,68 @@ Theorem C03_settings : forall G cdeps csem rsem M,
       d_get (match pm_extra M with None => [] | Some d => d end) k.
 Proof. exact settings_roundtrip. Qed.
 Print Assumptions C03_settings.
+
+(* ---- models with a whole-column reference.  The reference cell of an
+   unbounded range (S!B:B: a node of range kind whose only member is the
+   bounded range node and whose value is that node's value) does not meet
+   code_nonblank.  Proofs/C03Weak.v:
+     members_ok G n vals        one value per member of the range node n, non-blank
+                                for the members that are range nodes themselves
+     code_nonblank_weak G csem rsem
+                                formula code never evaluates to None, and a range
+                                node evaluates to a non-None value on every
+                                members_ok argument list
+   The condition speaks about the geometry G only, hence about the saved model
+   and the loaded one at once; it is implied by code_nonblank and implies C01's
+   sem_nonblank_weak for every well-formed model over G. *)
+Theorem C03_weak_condition : forall G cdeps csem rsem M, pm_ok G cdeps M -> wf (pm_wb M) ->
+  (code_nonblank csem rsem -> code_nonblank_weak G csem rsem) /\
+  (code_nonblank_weak G csem rsem -> sem_nonblank_weak (pm_wb M) (pm_sem csem rsem M)).
+Proof. exact weak_condition. Qed.
+Print Assumptions C03_weak_condition.
+
+(* the four theorems that quantify over code_nonblank, with the weak condition
+   (by transfer: the loader and the machines of both models cannot tell rsem
+   from its strongly non-blank version rtot rsem) *)
+Theorem C03_abs_weak_partial : forall G cdeps csem rsem M,
+  pm_ok G cdeps M -> wf (pm_wb M) -> code_nonblank_weak G csem rsem ->
+  Inv (pm_wb M) (pm_sem csem rsem M) (pm_state M) -> no_eq_text M ->
+  exists M', roundtrip_pkl G cdeps csem rsem M = Ok M' /\ abs M' = abs M.
+Proof. exact abs_roundtrip_weak_p. Qed.
+Print Assumptions C03_abs_weak_partial.
+
+Theorem C03_equiv_weak_partial : forall G cdeps csem rsem M,
+  pm_ok G cdeps M -> wf (pm_wb M) -> code_nonblank_weak G csem rsem ->
+  Inv (pm_wb M) (pm_sem csem rsem M) (pm_state M) -> no_eq_text M ->
+  stored_ok (pm_wb M) (pm_sem csem rsem M) -> allcells (pm_wb M) (pm_state M) ->
+  inputs_exact (pm_wb M) (st_cache (pm_state M)) ->
+  exists M', roundtrip_pkl G cdeps csem rsem M = Ok M' /\
+    forall h, Forall (post_ok (pm_wb M)) h ->
+      snd (run (pm_wb M') (pm_sem csem rsem M') (pm_state M') h)
+      = snd (run (pm_wb M) (pm_sem csem rsem M) (pm_state M) h)
+      /\ snd (run (pm_wb M) (pm_sem csem rsem M) (pm_state M) h)
+         = run_spec (pm_wb M) (pm_sem csem rsem M) (st_cache (pm_state M)) h.
+Proof. exact equiv_roundtrip_weak_p. Qed.
+Print Assumptions C03_equiv_weak_partial.
+
+Theorem C03_equiv_region_weak_partial : forall G cdeps csem rsem M,
+  pm_ok G cdeps M -> wf (pm_wb M) -> code_nonblank_weak G csem rsem ->
+  Inv (pm_wb M) (pm_sem csem rsem M) (pm_state M) -> no_eq_text M ->
+  stored_ok (pm_wb M) (pm_sem csem rsem M) ->
+  inputs_exact (pm_wb M) (st_cache (pm_state M)) ->
+  exists M', roundtrip_pkl G cdeps csem rsem M = Ok M' /\
+    forall h, Forall (post_in M) h ->
+      ok_history (pm_wb M) (pm_sem csem rsem M) (ok_op (pm_wb M)) (pm_state M) h ->
+      snd (run (pm_wb M') (pm_sem csem rsem M') (pm_state M') h)
+      = snd (run (pm_wb M) (pm_sem csem rsem M) (pm_state M) h).
+Proof. exact equiv_region_roundtrip_weak_p. Qed.
+Print Assumptions C03_equiv_region_weak_partial.
+
+Theorem C03_idempotent_weak_partial : forall G cdeps csem rsem M,
+  pm_ok G cdeps M -> wf (pm_wb M) -> code_nonblank_weak G csem rsem ->
+  Inv (pm_wb M) (pm_sem csem rsem M) (pm_state M) -> no_eq_text M ->
+  exists M', roundtrip_pkl G cdeps csem rsem M = Ok M' /\
+    saved_cells G M' = saved_cells G M /\
+    forall k, d_get (fst (to_text G M')) k = d_get (fst (to_text G M)) k.
+Proof. exact idempotent_weak_p. Qed.
+Print Assumptions C03_idempotent_weak_partial.
